@@ -1,24 +1,30 @@
 ------------------------------ MODULE MC_Faults ------------------------------
-(* Model check of the run machine of Faults.tla over the whole grid fault x situation x form, and export
-   of the grid (cases.ndjson) and of the holes of the implementation-shaped model (model_holes.ndjson). *)
+(* Model check of the run machine of Faults.tla over the whole grid fault x situation x form x run options, and
+   export of the grid and of the show grid (cases.ndjson) and of the holes of the implementation-shaped model
+   (model_holes.ndjson). *)
 EXTENDS Faults, TLC, Json, SequencesExt
 
 \* sanity of the tables (constant level: evaluated before the model check starts)
 ASSUME \A n \in FaultNames : FaultByName(n).name = n
 ASSUME \A f \in Rows : f.pv \in PanicValues /\ f.nested \in {"no", "panics", "recovers"}
-ASSUME NoPanicFaults \cup ErrorFaults \subseteq FaultNames
+ASSUME NoPanicFaults \cup ErrorFaults \cup StopFaults \subseteq FaultNames
 ASSUME \A f \in Rows : \E s \in Situations, fm \in Forms : Applicable(f, s, fm)
-\* every one of the six situation classes is populated for every fault that has a statement form
+\* every situation class is populated for every fault that has a statement form
 ASSUME \A f \in Rows : f.stmt /\ ~f.decl =>
-          \A k \in {"top-level", "callee", "deferred-call", "closure", "function-value", "template"} :
+          \A k \in {"top-level", "callee", "deferred-call", "closure", "function-value", "template", "multi-step"} :
              \E s \in Situations, fm \in Forms : SituationClass(s) = k /\ Applicable(f, s, fm)
+ASSUME StructWalkSafe
 
 \* (LET-bound values are evaluated once; a top-level definition would be re-evaluated at every use)
-ASSUME LET G == SetToSeq(Grid) IN
+ASSUME LET G == SetToSeq(Grid)  S == SetToSeq(ShowGrid) IN
        ndJsonSerialize("cases.ndjson",
-          [i \in 1..Len(G) |-> [id |-> i, kind |-> "fault", fault |-> G[i].fault, situation |-> G[i].situation, form |-> G[i].form]])
+          [i \in 1..(Len(G) + Len(S)) |->
+             IF i <= Len(G)
+             THEN [id |-> i, kind |-> "fault", fault |-> G[i].fault, situation |-> G[i].situation, form |-> G[i].form, opt |-> G[i].opt]
+             ELSE [id |-> i, kind |-> "show", value |-> S[i - Len(G)].value, ctx |-> S[i - Len(G)].ctx, box |-> S[i - Len(G)].box,
+                   isolate |-> (S[i - Len(G)].value \in CyclicValues)]])
 HoleRec(c) == LET f == FaultByName(c.fault) IN
-              [fault |-> c.fault, situation |-> c.situation, form |-> c.form, class |-> f.class, op |-> f.op, pv |-> f.pv,
+              [fault |-> c.fault, situation |-> c.situation, form |-> c.form, opt |-> c.opt, class |-> f.class, op |-> f.op, pv |-> f.pv,
                model |-> ModelOutcome(c)]
 ASSUME LET H == SelectSeq(SetToSeq(Grid), LAMBDA c : ModelOutcome(c) \notin RefOutcomes(c)) IN
        ndJsonSerialize("model_holes.ndjson", [i \in 1..Len(H) |-> HoleRec(H[i])])
